@@ -37,8 +37,10 @@ ListedFeatures == {"arrays", "arrays_const", "bit_vectors", "integers", "reals",
 LinAdd(m1, m2, k) == [n \in DOMAIN m1 \cup DOMAIN m2 |-> MapGet(m1, 0, n) + k * MapGet(m2, 0, n)]
 RECURSIVE LinOf(_)
 LinOf(t) ==
-    CASE t.op = "symbol" /\ t.ty.k \in {"Int", "Real"} -> [ok |-> TRUE, m |-> MapPut(EmptyMap, t.n, 1)]
+    CASE t.op = "symbol" /\ t.ty.k \in {"Int", "Real"} -> [ok |-> TRUE, m |-> MapPut(EmptyMap, t, 1)]
       [] t.op \in {"int_constant", "real_constant"} -> [ok |-> TRUE, m |-> EmptyMap]
+      \* an ite / an application / a select is a "variable" of the atom like a symbol (keyed by the term itself)
+      [] t.op \in {"ite", "function", "array_select"} /\ FreeSyms(t) # {} -> [ok |-> TRUE, m |-> MapPut(EmptyMap, t, 1)]
       [] t.op \in {"plus", "minus"} ->
             LET ls == [j \in 1..Len(t.a) |-> LinOf(t.a[j])]
                 RECURSIVE Acc(_)
